@@ -45,7 +45,7 @@ def run(ctx):
 
   # ---- C06.always-parses
   emits = [c for c in walk_local(cs.node) if isinstance(c, ast.Call) and prog.resolve_call(cs, c) == fb.qual]
-  ctx.expect_at_least('binding emission sites in _config_str', len(emits), 2)
+  ctx.expect_at_least('binding emission sites in _config_str', len(emits), 1)
   for c in emits:
     if len(c.args) < 2:
       raise AnalysisError('format_binding call without a value argument at line %d' % c.lineno)
@@ -124,7 +124,7 @@ def run(ctx):
     ok = is_sorted_expr(prog, cs, init.generators[0].iter)
     ctx.check(ok, 'C06.canonical', con, 'imports are emitted in sorted order',
               'imports are emitted in the iteration order of `%s`' % u(init.generators[0].iter), cs.loc(init), instance='imports')
-  ctx.expect_at_least('emitting loops in _config_str', n_loops, 4)
+  ctx.expect_at_least('emitting loops in _config_str', n_loops, 2)
   im = ctx.cls('config.ImportManager')
   ii = im.methods.get('__init__')
   for lp in [n for n in walk_local(ii.node) if isinstance(n, ast.For)]:
